@@ -44,6 +44,7 @@ class RenderContext:
     __slots__ = (
         "template",
         "globals",
+        "render_globals",
         "disabled_tags",
         "parent",
         "_copy_depth",
@@ -68,9 +69,14 @@ class RenderContext:
         copy_depth: int = 0,
         loop_iteration_carry: int = 1,
         local_namespace_carry: int = 0,
+        render_globals: Mapping[str, object] | None = None,
     ) -> None:
         self.template = template
         self.globals = global_data if global_data is not None else {}
+        # Global data without the arguments of any enclosing `render` or `call`.
+        self.render_globals = (
+            render_globals if render_globals is not None else self.globals
+        )
         self.disabled_tags = disabled_tags or set()
         self.parent = parent
         self._copy_depth = copy_depth
@@ -384,19 +390,23 @@ class RenderContext:
                 parent=self,
                 loop_iteration_carry=loop_iteration_carry,
                 local_namespace_carry=self.get_size_of_locals(),
+                render_globals=self.render_globals,
             )
             # This might need to be generalized so the caller can specify which
             # tag namespaces need to be copied.
             ctx.tag_namespace["extends"] = self.tag_namespace["extends"]
         else:
+            # An isolated scope sees global data and its own arguments, not the
+            # arguments of an enclosing `render` or `call`.
             ctx = self.__class__(
                 template or self.template,
-                global_data=ReadOnlyChainMap(namespace, self.globals),
+                global_data=ReadOnlyChainMap(namespace, self.render_globals),
                 disabled_tags=disabled_tags,
                 copy_depth=self._copy_depth + 1,
                 parent=self,
                 loop_iteration_carry=loop_iteration_carry,
                 local_namespace_carry=self.get_size_of_locals(),
+                render_globals=self.render_globals,
             )
 
         ctx.template = template or self.template
